@@ -161,6 +161,13 @@ func (sx *SPDX) Generate(opts *options.Options, path string) error {
 		p.ID = stringToIdentifier(fmt.Sprintf(
 			"SPDXRef-Package-%s-%s-%s", nonce, pkg.Name, pkg.Version,
 		))
+		// stringToIdentifier is not injective ("gtk+" and "gtkC43" map to the
+		// same identifier). If the ID is already taken by a different package,
+		// number this package's ID instead of letting the de-duplication below
+		// drop the package.
+		for base, n := p.ID, 2; idTakenByAnother(doc, &p); n++ {
+			p.ID = fmt.Sprintf("%s-%d", base, n)
+		}
 
 		doc.Packages = append(doc.Packages, p)
 
@@ -187,6 +194,18 @@ func (sx *SPDX) Generate(opts *options.Options, path string) error {
 	}
 
 	return nil
+}
+
+// idTakenByAnother tells whether the document already has a package with p's ID
+// that has another name or version
+func idTakenByAnother(doc *Document, p *Package) bool {
+	for i := range doc.Packages {
+		q := &doc.Packages[i]
+		if q.ID == p.ID && (q.Name != p.Name || q.Version != p.Version) {
+			return true
+		}
+	}
+	return false
 }
 
 // replacePackage replaces a package with ID originalID with newID
